@@ -27,7 +27,9 @@ def observe(case):
     except BaseException as e:  # noqa: BLE001  harness problem: report as such
         return {"text": common.cps(text), "flags": sorted(set(flags)), "inputs": [],
                 "online": online, "mustfail": False,
-                "ev": [{"ev": "Final", "stack": [], "out": [], "d": [0, 0, 0, 0], "raised": "harness:" + type(e).__name__,
+                # a failure of the harness itself is never a verdict about the implementation: the run is not evaluated
+                "harness_error": type(e).__name__,
+                "ev": [{"ev": "Final", "stack": [], "out": [], "d": [0, 0, 0, 0], "raised": "budget",
                         "ctx": {"x": "?"}, "host": 0, "rec2": 0, "canary": 0}]}
     finally:
         sys.setrecursionlimit(old)
